@@ -734,7 +734,10 @@ Section Timely.
         destruct (bm_get inst (c_srv (s_cache s))); [|constructor; [exact I|constructor]].
         match goal with |- context [find ?f ?l] => destruct (find f l) end;
           [constructor; [exact I|constructor]|constructor]. }
-      destruct (query_unresolved (s_cache s) inst) as [sent o]. cbn [snd] in Hq.
+      assert (Hq2 : Forall silent5 (snd (if has_ptr_to (s_cache s) inst then query_unresolved (s_cache s) inst else (false, []))))
+        by (destruct (has_ptr_to (s_cache s) inst); [exact Hq|constructor]).
+      clear Hq. rename Hq2 into Hq.
+      destruct (if has_ptr_to (s_cache s) inst then query_unresolved (s_cache s) inst else (false, [])) as [sent o]. cbn [snd] in Hq.
       destruct (sent && retry_guard n max_try); cbn [fst snd];
         apply (keeps_stepT L s ups m); auto using keeps_refl.
     - unfold exec_verify. pose proof (cshr_verify L (s_cache s) inst None HI) as Hsh.
